@@ -46,7 +46,7 @@ def h_constant_assignment(eng):
     eq = {"sym-alg": x, "sym-other": s, "x-c": E("OP_SUB", x, c), "c-x": E("OP_SUB", c, x), "x+c": E("OP_ADD", x, c), "c+x": E("OP_ADD", c, x),
           "s-c": E("OP_SUB", s, c), "x-s": E("OP_SUB", x, s), "x-y": E("OP_SUB", x, y), "c-c": E("OP_SUB", c, c2), "x*c": E("OP_MUL", x, c)}[shape]
     va1, va2 = variable("a1"), variable("a2")
-    model = VObj(VClass("Model"), {"equations": VList([eq]), "alg_states": VList([va1, va2]), "constants": VList([])})
+    model = M.new_model(eng, {"equations": VList([eq]), "alg_states": VList([va1, va2]), "constants": VList([])})
     opts = VDict([("eliminate_constant_assignments", True)])
     fr = eng.exec_fragment(MODEL, "Model._simplify_once", M.block_selector("eliminate_constant_assignments"),
                            {"self": model, "options": opts}, label="eliminate-constant-assignments")
@@ -113,7 +113,7 @@ def h_extract_assignment(eng):
           "ifz+ifz-different": E("OP_ADD", ifz(c1, E("OP_SUB", a, v)), ifz(c2, E("OP_SUB", a2, w))),
           "v-w": E("OP_SUB", v, w), "alg*v": E("OP_MUL", a, v)}[shape]
     va, va2, vs = variable("a1"), variable("a2"), variable("s1")
-    model = VObj(VClass("Model"), {"states": VList([vs]), "alg_states": VList([va, va2]), "der_states": VList([variable("der(s1)")])})
+    model = M.new_model(eng, {"states": VList([vs]), "alg_states": VList([va, va2]), "der_states": VList([variable("der(s1)")])})
     opts = VDict([("eliminable_variable_expression", "_.*"), ("expand_mx", True)])
     fr = eng.exec_fragment(MODEL, "Model._simplify_once", prefix_until_def("eliminable_variable_expression", "extract_assignment"),
                            {"self": model, "options": opts}, label="extract_assignment")
@@ -168,7 +168,7 @@ def h_factor_and_simplify(eng):
     eq = generic[shape] if shape in generic else {"neg(x)": E("OP_NEG", x), "abs(x)": E("OP_FABS", x), "x*c": E("OP_MUL", x, c), "c*x": E("OP_MUL", c, x), "x/c": E("OP_DIV", x, c),
           "c/x": E("OP_DIV", c, x), "x*y": E("OP_MUL", x, y), "neg(abs(x*c)/c2)": E("OP_NEG", E("OP_DIV", E("OP_FABS", E("OP_MUL", x, c)), c2)),
           "x-y": E("OP_SUB", x, y), "(x-y)*c": E("OP_MUL", E("OP_SUB", x, y), c)}[shape]
-    model = VObj(VClass("Model"), {"equations": VList([eq])})
+    model = M.new_model(eng, {"equations": VList([eq])})
     opts = VDict([("factor_and_simplify_equations", True)])
     fr = eng.exec_fragment(MODEL, "Model._simplify_once", prefix_until_def("factor_and_simplify_equations", "factor_and_simplify"),
                            {"self": model, "options": opts}, label="factor_and_simplify")
@@ -252,7 +252,7 @@ def h_eliminable_derivatives(eng):
         defs[v] = t
         eqs.append(E("OP_SUB", S[v], t))
     var = lambda n: VObj(VClass("Variable"), {"symbol": S[n], "value": float("nan")})
-    model = VObj(VClass("Model"), {
+    model = M.new_model(eng, {
         "states": VList([var(n) for n, k in names.items() if k == "s"]), "der_states": VList([var("der(%s)" % n) for n, k in names.items() if k == "s"]),
         "alg_states": VList([var(n) for n, k in names.items() if k == "a"]), "inputs": VList([var("u")]), "parameters": VList([var("p")]), "constants": VList([]),
         "equations": VList(list(eqs)), "initial_equations": VList([]), "delay_arguments": VList([]), "time": S["time"]})
@@ -416,10 +416,10 @@ def alias_fragment(eng, model, opts, upto):
                              {"self": model, "options": opts}, label=upto)
 
 
-def alias_model(canon=None):
+def alias_model(eng, canon=None):
     vx, vy, vs, vp, vw = variable("x"), variable("y"), variable("s"), variable("p"), variable("w")
     rel = AliasRel(canon or {})
-    model = VObj(VClass("Model"), {"states": VList([vs]), "der_states": VList([variable("der(s)")]), "alg_states": VList([vx, vy, vw]),
+    model = M.new_model(eng, {"states": VList([vs]), "der_states": VList([variable("der(s)")]), "alg_states": VList([vx, vy, vw]),
                                    "inputs": VList([]), "parameters": VList([vp]), "constants": VList([]), "alias_relation": rel})
     return model, rel
 
@@ -433,7 +433,7 @@ def h_detect_alias(eng):
     eq = {"x-y": lambda: E("OP_SUB", x, y), "x+y": lambda: E("OP_ADD", x, y), "affine": lambda: Affine(eng, x, y),
           "affine+param": lambda: Affine(eng, x, y, [p]), "x-c": lambda: E("OP_SUB", x, c), "x*y": lambda: E("OP_MUL", x, y),
           "x-y-z": lambda: E("OP_SUB", E("OP_SUB", x, y), z), "x*x-y*y": lambda: DiffOfSquares(x, y)}[shape]()
-    model, rel = alias_model()
+    model, rel = alias_model(eng)
     opts = VDict([("detect_aliases", True), ("allow_derivative_aliases", True), ("expand_vectors", False), ("expand_mx", False)])
     fr = alias_fragment(eng, model, opts, "_detect_alias")
     f = fr.locals.get("_detect_alias")
@@ -481,7 +481,7 @@ def h_make_alias(eng):
     eng.input("pair", [n0, n1])
     eng.input("negative", negative)
     eng.input("canonical_of_x", list(x_canon) if isinstance(x_canon, tuple) else x_canon)
-    model, rel = alias_model(dict(pre))
+    model, rel = alias_model(eng, dict(pre))
     opts = VDict([("detect_aliases", True), ("allow_derivative_aliases", allow_der), ("expand_vectors", False), ("expand_mx", False)])
     fr = alias_fragment(eng, model, opts, "_make_alias")
     f = fr.locals.get("_make_alias")
@@ -598,7 +598,7 @@ def h_reduce_affine(eng):
                     "constants": VList([c0]), "parameters": VList([p0])}
     for L in ("equations", "initial_equations"):
         model_fields[L] = VList([RT("residual", label=L)] if L in lists else [])
-    model = VObj(VClass("Model"), model_fields)
+    model = M.new_model(eng, model_fields)
 
     def symbols(eng, selfobj, variables):
         return VList([v.fields["symbol"] for v in eng.iterate(variables)])
@@ -660,7 +660,7 @@ HARNESSES = [("Model._simplify_once#eliminate_constant_assignments", h_constant_
              ("Model._simplify_once._detect_alias", h_detect_alias), ("Model._simplify_once._make_alias", h_make_alias),
              ("Model._simplify_once#reduce_affine_expression", h_reduce_affine),
              ("Model._simplify_once#eliminable-variable loop with the real get_derivative", h_eliminable_derivatives)]
-EXPECTED_COVER = {"const.done", "extract.done", "factor.done", "detect.done", "make.done", "affine.done", "elimder.done"}
+EXPECTED_COVER = {"const.done", "extract.done", "factor.done", "detect.done", "make.done", "affine.done", "elimder.done", "elimder.raises"}
 BOUNDED = True
 LEVEL = "proof"
 TRUSTED = ["pyvc VC generator", "z3 5.1.0",
